@@ -753,7 +753,7 @@ def r_ti_variant_tree(model, rep):
                                                 and x[1][1][0] == "call" and x[1][1][1] == ("attr", IN, "get") and x[1][1][2][1] == ("const", "addons"))
             msg = "child uids must be read from the 'addons' option split on ','"
         if ok:
-            ng = facts.non_gate_guards(ad)
+            ng = [facts.canon_guard_pair(g_) for g_ in facts.non_gate_guards(ad)]      # ``if has: ...`` and ``if not has: return``
             ok = len(ng) == 1 and ng[0][1] and ng[0][0][0] == "call" and ng[0][0][1] == ("attr", IN, "has_option") and ng[0][0][2][1] == ("const", "addons")
             msg = "children must be read exactly when the 'addons' option exists"
     rep.ob("R-TI-VARIANT-TREE", "treeinfo.Variant.deserialize_1_0:children", ok, site=gcx.site(g.node), msg="" if ok else msg)
@@ -1234,6 +1234,21 @@ def r_legacy_map(model, rep):
                            k, r.attr, shape, pinned, (" and the current-version reader applies %s" % sorted(mates)) if mates else ""))
     if n < 18:
         raise AnalysisError("vacuity guard: R-LEGACY-MAP compared %d legacy transforms (floor 18)" % n)
+    # keys that older documents of the same major format lack have a documented default (image format 'iso', release type 'ga')
+    from .schema import DOCUMENTED_DEFAULTS
+    for (q_, k_), dflt_ in sorted(DOCUMENTED_DEFAULTS.items()):
+        rf_ = model.own_method(q_, "deserialize")
+        cls_ = model.cls(q_)
+        rcx_ = facts.fctx(model, rf_)
+        hits = []
+        for r_ in facts.reader_reads(model, rf_, version=V):
+            for s_ in r_.sources:
+                if s_[0] and _const_key(s_[0][-1]) == k_:
+                    hits.append(s_)
+        okd_ = bool(hits) and all(s_[1] == "soft" and s_[2] is not None and rcx_.try_const(facts.pick_at_version(s_[2], V), object()) == dflt_
+                                  for s_ in hits)
+        rep.ob("R-LEGACY-MAP", "%s:documented-default:%s" % (q_, k_), okd_, site=cls_.module.rel(),
+               msg="" if okd_ else "a document without %r must be read as %r (older documents lack the key)" % (k_, dflt_))
     # images <= 1.0: subvariant default "", format default "iso"
     f = model.own_method("images.Image", "deserialize")
     cx = facts.fctx(model, f)
